@@ -233,6 +233,11 @@ HARNESSES += [
      "unwind": 7, "unwind_thorough": 10,
      "bounded": "path strings of at most 4 (quick) / 7 (thorough) characters (CBMC's strlen/strchr models unrolled)",
      "what": "path_is_relative against the documented meaning of a relative program path"},
+    {"name": "path_is_relative_any", "props": ["C03", "C14"], "src": "h_path.c", "contracts": ["public.h"],
+     "includes": ["process.posix.c"], "defs": {"VERIF_PATH_ANY": None}, "unwind": 2, "object_bits": 8,
+     "what": "path_is_relative for ANY string length up to 2^30 (loop-free: strlen/strchr are executable contracts over a ghost "
+             "description of the string and assert that their argument lies inside it): documented meaning, no scan started "
+             "outside the string"},
 ]
 
 
@@ -437,7 +442,8 @@ PROPERTY_META = {
                 "strv_concat contents law, path_is_relative and path_prepend_cwd (memory safety for any path length, clean "
                 "failure) are decided in their own harnesses.",
         "note": OS_NOTE + "Unbounded: process_start (structure, provenance). Bounded and labelled so: strv_concat (vector/"
-                "string sizes), path_is_relative (string length), path_prepend_cwd (number of buffer growth steps; path length "
+                "string sizes), path_is_relative at byte level (string length; decided for ANY length by the loop-free harness "
+                "path_is_relative_any, strlen/strchr assumed per ISO C over ghost string facts), path_prepend_cwd (number of buffer growth steps; path length "
                 "is unbounded). execvp's PATH search is the kernel/libc's. Windows CreateProcessW path not covered.",
         "design_ref": "§3 C03", "not_decided": ["execvp PATH search", "Windows process_start"]},
     "C08": {"claimed": True, "level": "proof",
